@@ -2,6 +2,8 @@ package c29
 
 import (
 	"fmt"
+	"os"
+	"runtime/pprof"
 	"strings"
 	"testing"
 	"time"
@@ -15,7 +17,7 @@ func TestDbgA(t *testing.T) {
 		t.Fatal(err)
 	}
 	e.srv.AddVariable("big", strings.Repeat("x", 60000))
-	a, _ := dialAtt(e.addr, e.srv.URL)
+	a, _ := dialSmallWindow(e.addr, e.srv.URL, 4096)
 	var rv []*ua.ReadValueID
 	for i := 0; i < 30; i++ {
 		rv = append(rv, &ua.ReadValueID{NodeID: ua.NewStringNodeID(nsTest, "big"), AttributeID: ua.AttributeIDValue, DataEncoding: &ua.QualifiedName{}})
@@ -27,7 +29,9 @@ func TestDbgA(t *testing.T) {
 			fmt.Println("send", i, err)
 		}
 	}
-	for i := 0; i < 8; i++ {
+	time.Sleep(500 * time.Millisecond)
+	pprof.Lookup("goroutine").WriteTo(os.Stdout, 1)
+	for i := 0; i < 3; i++ {
 		d, err := e.canaryRead()
 		fmt.Println("canary", d, err)
 		time.Sleep(200 * time.Millisecond)
